@@ -191,3 +191,22 @@ def check(run: Run) -> None:
             t = strip_sites(fa2.term_of(s.value, n))
             ok = ok or any(a[0] == "app" and a[1] == ("global", "copy.deepcopy") and a[2] and a[2][0][0] == "subscript" and a[2][0][1] == ("attr", VA, "values") for a in unphi_terms(t))
     run.check(ok, "C14.R3", va, va.node, "Attribute of a Dict literal returns (a copy of) the selected value", "no path of visit_Attribute projects a value out of a Dict literal by attribute name")
+    # the projection is attempted for *every* attribute of a Dict literal: nothing else about the attribute name decides it
+    from ..lib import call_events
+
+    for ev in call_events(ctx, va, lambda nm: nm.startswith("visit_Subscript_Dict")):
+        if not ev.args or ev.args[0] != VA:
+            continue
+        extra = []
+        for a, pol in ev.facts(ctx).atoms if ev.owner is va else []:
+            got = match_isinstance(a) if isinstance(a, (ast.Call, ast.Compare)) else None
+            if got is not None and fa2.cfg.has_node(got[0]) and strip_sites(fa2.term_of(got[0])) == VA:
+                continue  # the Dict test itself
+            if any(isinstance(x, ast.Attribute) and x.attr == "attr" and fa2.cfg.has_node(x) and strip_sites(fa2.term_of(x.value)) == nodea for x in ast.walk(a)):
+                extra.append(f"{ast.unparse(a)[:60]} is {pol}")
+        run.check(not extra, "C14.R3", va, stmt_of(ev.call) if ev.owner is va else va.node, "every attribute of a Dict literal is looked up among its keys", f"the key lookup for <dict literal>.<name> is made only when {'; '.join(extra)}: fields whose name the condition excludes (e.g. names that are also dict methods: items, keys, values, get) are not projected and the dictionary stays in the query", "if isinstance(visited_value, ast.Dict): look the name up")
+    # the composition helper the fusion rules rely on (shared with C02.R1): a stale or captured binder leaves projections behind
+    from ..report import Relabel
+    from .c02 import SPEC_CONVOLUTE, _spec_equal
+
+    _spec_equal(Relabel(run, "C14.R1"), ctx, m, m.find_func("convolute", in_module="func_adl.ast.function_simplifier"), SPEC_CONVOLUTE, "func_adl.ast.function_simplifier", None, "C14.R1")
